@@ -274,7 +274,7 @@ import tempfile  # noqa: E402
 TP = "gotranx.templates.python."
 TJ = "gotranx.templates.jax."
 TC = "gotranx.templates.c."
-_DATA = [{}, {"a": 0}, {"V": 0, "m": 1, "h_gate": 2}]
+_DATA = [{}, {"a": 0}, {"V": 0, "m": 1, "h_gate": 2}, {"x": 0, "xr": 1, "x_": 2, "g": 3, "gK": 4, "gKr": 5}]  # the last one: names that are prefixes of each other
 
 
 @registry.spec("py_index_ok")
@@ -286,11 +286,13 @@ def _py_index_ok(ctx, st, text, data, name):
         f = ns[f"{name}_index"]
         if any(f(k) != v for k, v in data.items()):
             return False
-        try:
-            f("__no_such_name__")
-            return False
-        except KeyError:
-            return ns[name] == data
+        for u in ["__no_such_name__", ""] + [k + "q" for k in data] + [k[:-1] for k in data if len(k) > 1 and k[:-1] not in data]:
+            try:
+                f(u)
+                return False
+            except KeyError:
+                pass
+        return ns[name] == data
     except Exception:  # noqa
         return False
 
@@ -419,7 +421,8 @@ def _c_index_ok(ctx, st, text, data, name):
         if f is None:
             return False
         f.argtypes = [ctypes.c_char_p]
-        return all(f(k.encode()) == v for k, v in data.items()) and f(b"__no_such_name__") == -1
+        unknown = [b"__no_such_name__", b""] + [(k + "q").encode() for k in data] + [k[:-1].encode() for k in data if len(k) > 1 and k[:-1] not in data]
+        return all(f(k.encode()) == v for k, v in data.items()) and all(f(u) == -1 for u in unknown)
     finally:
         import shutil
         shutil.rmtree(d, ignore_errors=True)
